@@ -859,6 +859,8 @@ class F(Folder):
             if k.arg is None:
                 raise NotConst("**kwargs")
             kw[k.arg] = self.fold(k.value)
+        if getattr(self.ev, "cur_stmt", None) is not None:
+            Ev.current = (self.ev, self.ev.cur_stmt)  # evaluating the arguments may have run other evaluators
         return fn(*args, **kw)
 
     def _comp(self, generators, emit):
@@ -1036,6 +1038,7 @@ class Ev(BlockEval):
 
     def _stmt(self, st: ast.stmt) -> None:
         Ev.current = (self, st)
+        self.cur_stmt = st
         if isinstance(st, ast.If):
             self._block(st.body if self.cond(st.test) else st.orelse)
         elif isinstance(st, ast.Assign) and len(st.targets) == 1 and isinstance(st.targets[0], ast.Name) and (isinstance(st.value, (ast.BoolOp, ast.Compare)) or (isinstance(st.value, ast.UnaryOp) and isinstance(st.value.op, ast.Not))):
@@ -1921,7 +1924,7 @@ def check_cli_binding(chk, mn, fi, cap: "Capture") -> None:
     if unread and not wrong:
         chk.error("cli-arguments", site, f"CLI options passed to find_clashes not understood: {unread[0]}")
     else:
-        chk.expect(not wrong, "cli-arguments", site, "every option parameter of find_clashes receives the value of the switch of the same name (evaluated call, positional or keyword)", f"CLI options are not passed to find_clashes parameters of the same name: {'; '.join(wrong[:3])}", _K(mn, "cli-args"), expected=expected, found={p_: str(bound.get(p_))[:40] for p_ in params[1:]})
+        chk.expect(not wrong, "cli-arguments", site, "every option parameter of find_clashes receives the value of the switch of the same name (evaluated call, positional or keyword)", f"CLI options are not passed to find_clashes parameters of the same name: {'; '.join(wrong[:3])}", _K(mn, "cli-args"), expected=expected, found={p_: (f"--{str(bound.get(p_))[2:-1].replace('_', '-')}" if str(bound.get(p_)).startswith("«o") else str(bound.get(p_))[:40]) for p_ in params[1:]})
     res_ok = bound.get(params[0]) == ["«residues»"]
     if not res_ok:
         chk.error("cli-arguments", site, f"the first argument of find_clashes is `{str(bound.get(params[0]))[:60]}`, not the residues of the structure read from the input file")
